@@ -289,6 +289,56 @@ def lambda_arity_sites(chk, repo):
                        sample=ast.unparse(a))
                 ok_all = ok_all and ok
     chk.floor("structure.Lambda construction sites", n, 8)
+    # any other structure class that carries an `arity` taken from a
+    # constructor parameter: the same demand on its construction sites
+    smod = repo.mod("structure")
+    carriers = {}
+    for cname, cls in smod.classes.items():
+        if cname == "Lambda":
+            continue
+        init = next((m for m in cls.body if isinstance(m, ast.FunctionDef)
+                     and m.name == "__init__"), None)
+        if init is None:
+            continue
+        params = [a.arg for a in init.args.args][1:]
+        for st in ast.walk(init):
+            if isinstance(st, ast.Assign) and any(
+                    isinstance(t, ast.Attribute) and t.attr == "arity"
+                    and dotted(t.value) == "self" for t in st.targets) \
+                    and isinstance(st.value, ast.Name) \
+                    and st.value.id in params:
+                carriers[cname] = params.index(st.value.id), st.value.id
+    for modname in ("parse", "transpile", "structure"):
+        mod = repo.mod(modname)
+        for call in ast.walk(mod.tree):
+            if not isinstance(call, ast.Call):
+                continue
+            short = (dotted(call.func) or "").split(".")[-1]
+            if short not in carriers:
+                continue
+            pos, pname = carriers[short]
+            fn = next((f for f in ast.walk(mod.tree)
+                       if isinstance(f, ast.FunctionDef)
+                       and any(m is call for m in ast.walk(f))), mod.tree)
+            starred = any(isinstance(a, ast.Starred) for a in call.args) \
+                or any(k.arg is None for k in call.keywords)
+            a = call.args[pos] if len(call.args) > pos else next(
+                (k.value for k in call.keywords if k.arg == pname), None)
+            if starred:
+                ok = False
+            elif a is None:
+                ok = True  # the parameter's default (checked below)
+            else:
+                ok = arity_expr_ok(a, fn) or (
+                    isinstance(a, ast.Constant) and a.value is None)
+            chk.ob("C18.lambda-arity-is-int",
+                   f"{modname}:{short}(... {pname}=...)@"
+                   f"{' '.join(ast.unparse(call).split())[:50]}", ok,
+                   f"the arity of a {short} structure (pasted into generated "
+                   "code as bare text) is not provably an int, 'default' or "
+                   "None: the construction site passes program text",
+                   mod.rel, call.lineno)
+            ok_all = ok_all and ok
     return ok_all
 
 
@@ -312,6 +362,101 @@ def arity_expr_ok(a, fn):
         return bool(writes) and all(arity_expr_ok(w.value, fn)
                                     for w in writes)
     return False
+
+
+PRODUCERS = ("transpile_token", "transpile_structure", "transpile_lambda")
+JOINERS = ("transpile", "transpile_ast", "transpile_single")
+
+
+def joiners_only_join(chk, repo, TF):
+    """transpile / transpile_ast / transpile_single return nothing but the
+    results of the three producers (analysed by the taint interpretation),
+    constant text and joins of those: no program text enters generated code
+    beside the producers."""
+    tmod = repo.mod("transpile")
+
+    def impure(e, fn, depth=0):
+        """sub-expressions of a returned expression that are neither
+        producer results, constants nor joins of them"""
+        if isinstance(e, ast.Constant) and isinstance(e.value, str):
+            return []
+        if isinstance(e, ast.BinOp) and isinstance(e.op, ast.Add):
+            return impure(e.left, fn, depth) + impure(e.right, fn, depth)
+        if isinstance(e, ast.IfExp):
+            return impure(e.body, fn, depth) + impure(e.orelse, fn, depth)
+        if isinstance(e, ast.JoinedStr):
+            out = []
+            for v in e.values:
+                if isinstance(v, ast.FormattedValue):
+                    out += impure(v.value, fn, depth)
+            return out
+        if isinstance(e, ast.Attribute) and e.attr == "__name__" and \
+                isinstance(e.value, ast.Call) and dotted(
+                e.value.func) == "type":
+            return []  # a class name of the implementation
+        if isinstance(e, ast.Call):
+            d = dotted(e.func) or ""
+            short = e.func.attr if isinstance(e.func, ast.Attribute) \
+                else d.split(".")[-1]
+            if short in PRODUCERS or short in JOINERS:
+                return []
+            if short == "indent_str" and e.args:
+                return impure(e.args[0], fn, depth)
+            if short == "join" and isinstance(e.func, ast.Attribute) \
+                    and e.args:
+                out = impure(e.func.value, fn, depth)
+                a = e.args[0]
+                if isinstance(a, (ast.GeneratorExp, ast.ListComp)):
+                    return out + impure(a.elt, fn, depth)
+                if isinstance(a, (ast.List, ast.Tuple)):
+                    for x in a.elts:
+                        out += impure(x, fn, depth)
+                    return out
+                return out + impure(a, fn, depth)
+            if isinstance(e.func, ast.Name) and short in tmod.functions \
+                    and depth < 3:
+                out = []
+                callee = tmod.functions[short]
+                for r in ast.walk(callee):
+                    if isinstance(r, ast.Return) and r.value is not None:
+                        out += impure(r.value, callee, depth + 1)
+                return out
+            return [e]
+        if isinstance(e, ast.Name):
+            # a local holding pure text
+            defs = [n for n in ast.walk(fn) if isinstance(n, (
+                ast.Assign, ast.AugAssign)) and any(
+                isinstance(t, ast.Name) and t.id == e.id
+                for t in (n.targets if isinstance(n, ast.Assign)
+                          else [n.target]))]
+            if defs and not any(a.arg == e.id for a in fn.args.args):
+                out = []
+                for d_ in defs:
+                    out += impure(d_.value, fn, depth)
+                return out
+            return [e]
+        return [e]
+
+    n = 0
+    for name in JOINERS:
+        fn = tmod.functions.get(name)
+        if fn is None:
+            raise AnalysisError(f"anchor vanished: transpile.{name}")
+        for r in ast.walk(fn):
+            if not (isinstance(r, ast.Return) and r.value is not None):
+                continue
+            n += 1
+            bad = impure(r.value, fn)
+            chk.ob("C18.joiners-only-join", f"transpile.{name}/return@"
+                   f"{' '.join(ast.unparse(r.value).split())[:40]}", not bad,
+                   f"{name} adds text to the generated code that does not "
+                   "come from transpile_token / transpile_structure / "
+                   "transpile_lambda or a constant: "
+                   + "; ".join(' '.join(ast.unparse(b).split())[:60]
+                               for b in bad[:3])
+                   + " - program-derived text there is outside the taint "
+                   "analysis of the producers", TF, r.lineno)
+    chk.floor("returns of the joining functions examined", n, 4)
 
 
 def pipeline_vocabulary(chk, repo, gen, tier, TF):
@@ -491,6 +636,7 @@ def check(chk, repo, tier):
                sample={"kind": k, "language": lang.describe() if lang else None})
 
     pipeline_vocabulary(chk, repo, gen, tier, TF)
+    joiners_only_join(chk, repo, TF)
 
     chk.explanation = (
         "Decides, for every string given to the transpiler, that program "
